@@ -99,6 +99,7 @@ def no_method_scenarios(ctx):
         hooks = {n_: (lambda s_, r, a, k, n, n_=n_: done.append(n_)) for n_ in (".add_variables", ".add_parameters", ".set_initial", ".set_parameter", ".subject_to", ".add_objective")}
         hooks[".eval_top"] = lambda s_, r, a, k, n: Sym("top")
         sim = Sim(P, hooks=hooks)
+        sim.self_class = "DirectMethod"
         sim.cfg["nu"] = stage.attrs["nu"] > 0      # the interpreter's policy table answers `stage.nu > 0` / `stage.nz` from its configuration
         sim.cfg["nz"] = stage.attrs["nz"] > 0
         try:
@@ -528,3 +529,9 @@ def r20_7(ctx):
             ctx.check(ok, "%s %s-nested chain: the middle operand is compared with both ends" % (f.name, form or "?"), detail="a link compares the wrong operands: a false bound of a constant two-sided constraint goes unnoticed",
                       expected="[lb <= g, (g <= ub)] for lb <= (g <= ub); [(lb <= g), g <= ub] for (lb <= g) <= ub", found="[%s, %s]" % (l0, l1), fi=f, node=r)
         ctx.check(all(seen.values()), "%s handles both nestings of a chain" % f.name, detail="one nesting is not taken apart", expected="right- and left-nested", found=str(seen), fi=f)
+
+
+@rule("R20.8", min_instances=3, desc="der() of an expression is refused when it cannot be formed: shifted operands, symbols of another stage, controls and algebraic variables (shared with C16: R16.2)")
+def r20_8(ctx):
+    from .c16 import r16_2
+    r16_2(ctx)
